@@ -439,7 +439,7 @@ def r8_flag_machine(ctx, fam):
                           'waits for ever' % (
                               owner.name if f is owner else f.name,
                               node.func.attr), where=where(f, node))
-    if k < 3:
+    if k < 2:
         raise AnalysisError('C19.R8 found only %d signalling sites' % k)
 
 
